@@ -122,6 +122,17 @@ func c06Input(l int, salt int) []byte {
 	return b
 }
 
+// c06NextBytes calls NextBytes, turning a panic of the splitter into an error (a panic on a legal
+// input is behaviour of the real code, not a broken driver).
+func c06NextBytes(sp Splitter) (b []byte, err error) {
+	defer func() {
+		if p := recover(); p != nil {
+			b, err = nil, fmt.Errorf("panic in NextBytes: %v", p)
+		}
+	}()
+	return sp.NextBytes()
+}
+
 func c06ReplayFrag(t *testing.T) {
 	n, desyncs := 0, 0
 	var firstDesync string
@@ -145,7 +156,7 @@ func c06ReplayFrag(t *testing.T) {
 				continue
 			}
 			step = k + 1
-			chunk, err := sp.NextBytes()
+			chunk, err := c06NextBytes(sp)
 			if rd.desync == "" && rd.idx != k {
 				// the splitter returned without performing all the reads the model has before this result
 				rd.desync = fmt.Sprintf("event %d: NextBytes returned after %d of the model's events", k, rd.idx)
@@ -376,7 +387,7 @@ func c06Content(kind int, l int, rng *rand.Rand) []byte {
 	return b
 }
 
-const c06MaxChunksPerRun = 80
+var c06MaxChunksPerRun = 80 // 48 in the quick tier
 
 // c06Count runs a splitter silently and returns the number of chunks (capped).
 func c06Count(spec string, data []byte, limit int) int {
@@ -386,7 +397,7 @@ func c06Count(spec string, data []byte, limit int) int {
 	}
 	n := 0
 	for n <= limit {
-		b, err := sp.NextBytes()
+		b, err := c06NextBytes(sp)
 		if err != nil || len(b) == 0 {
 			break
 		}
@@ -408,6 +419,8 @@ func c06Record(t *testing.T) {
 	bigMax := 4 << 20
 	if !vQuick() {
 		bigMax = 8 << 20
+	} else {
+		c06MaxChunksPerRun = 48
 	}
 	for i, raw := range vIn() {
 		var in struct {
@@ -459,7 +472,7 @@ func c06Record(t *testing.T) {
 				vEmit(M{"ev": "Run", "frag": mode})
 				off, ends := 0, 0
 				for k := 0; k < 3*c06MaxChunksPerRun && ends < 2; k++ {
-					b, err := s2.NextBytes()
+					b, err := c06NextBytes(s2)
 					if err != nil {
 						if errors.Is(err, io.EOF) && len(b) == 0 {
 							vEmit(M{"ev": "End", "rpos": rd.pos})
